@@ -291,7 +291,7 @@ pub fn run(ctx: &mut Ctx) {
         case += 1;
     }
     // ---- random lists
-    let nrand = ctx.n(240, 3000);
+    let nrand = ctx.n(240, 20_000);
     for i in 0..nrand {
         if ctx.mine(case) {
             ctx.begin(case);
